@@ -412,6 +412,10 @@ impl<K: Key> Sut for Bt<K> {
         for spec in &full {
             check_spec(idx, model, spec, false, evals)?;
         }
+        // top-level Include with a non-adjacent repeat in unsorted order: each key once, in key order
+        for l in include_lists::<K>().into_iter().take(2) {
+            check_spec(idx, model, &Spec::Include(l), false, evals)?;
+        }
         // one bounded page from a cursor (the complete cursor x limit matrix is in the deep battery)
         if let Some(first) = mkeys.first() {
             *evals += 1;
@@ -573,7 +577,17 @@ impl<K: Key> Spec<K> {
             Spec::Lt(_) => "Lt".into(),
             Spec::Le(_) => "Le".into(),
             Spec::Between(a, b) => if a > b { "BetweenInv" } else { "Between" }.into(),
-            Spec::Include(v) => if v.is_empty() { "Include0" } else { "Include" }.into(),
+            Spec::Include(v) => {
+                let distinct: BTreeSet<&K> = v.iter().collect();
+                if v.is_empty() {
+                    "Include0"
+                } else if distinct.len() < v.len() {
+                    "IncludeRepeat"
+                } else {
+                    "Include"
+                }
+                .into()
+            }
             Spec::And(s) => format!("And({})", s.iter().map(|x| x.shape()).collect::<Vec<_>>().join(",")),
             Spec::Or(s) => format!("Or({})", s.iter().map(|x| x.shape()).collect::<Vec<_>>().join(",")),
             Spec::Not(s) => format!("Not({})", s.shape()),
@@ -657,6 +671,19 @@ fn check_spec<K: Key>(
     Ok(())
 }
 
+/// Include lists over the indexed universe (a, b, c): non-adjacent repeat in
+/// unsorted order, unsorted without repeat, adjacent repeat.
+pub fn include_lists<K: Key>() -> Vec<Vec<K>> {
+    let u = K::universe();
+    let (a, b, c) = (u[0].clone(), u[1].clone(), u[2].clone());
+    vec![
+        vec![b.clone(), a.clone(), b.clone()],
+        vec![c.clone(), a.clone(), b.clone(), a.clone()],
+        vec![c, a.clone(), b],
+        vec![a.clone(), a],
+    ]
+}
+
 /// Leaf queries. `level` 1: small set (quick); 2: the full set; 3: the
 /// reduced set used below depth-3 trees.
 pub fn atoms<K: Key>(level: usize) -> Vec<Spec<K>> {
@@ -671,7 +698,9 @@ pub fn atoms<K: Key>(level: usize) -> Vec<Spec<K>> {
             out.push(Spec::Lt(p[4].clone()));
             out.push(Spec::Between(p[1].clone(), p[n - 2].clone()));
             out.push(Spec::Between(p[n - 2].clone(), p[1].clone()));
-            out.push(Spec::Include(vec![p[n - 2].clone(), p[1].clone()]));
+            let inc = include_lists::<K>();
+            out.push(Spec::Include(inc[1].clone()));
+            out.push(Spec::Include(inc[0].clone()));
             out.push(Spec::Include(vec![]));
         }
         1 => {
@@ -691,6 +720,9 @@ pub fn atoms<K: Key>(level: usize) -> Vec<Spec<K>> {
             out.push(Spec::Include(vec![p[n - 2].clone(), p[1].clone()]));
             out.push(Spec::Include(vec![p[1].clone(), p[1].clone()]));
             out.push(Spec::Include(p.clone()));
+            for l in include_lists::<K>() {
+                out.push(Spec::Include(l));
+            }
         }
         _ => {
             for x in &p {
@@ -711,6 +743,9 @@ pub fn atoms<K: Key>(level: usize) -> Vec<Spec<K>> {
             out.push(Spec::Include(vec![p[4].clone()]));
             out.push(Spec::Include(vec![p[n - 2].clone(), p[1].clone()]));
             out.push(Spec::Include(p.clone()));
+            for l in include_lists::<K>() {
+                out.push(Spec::Include(l));
+            }
         }
     }
     out
